@@ -61,13 +61,21 @@ def form_obs(f) -> dict:
     }
 
 
-def relmap_obs(ent) -> list:
-    out = []
+def relkey(name, source, target, lexicon, subtype) -> str:
+    return f'{name}|{source}|{target}|{lexicon}|{subtype if subtype is not None else ""}'
+
+
+def relmap_obs(ent) -> dict:
+    """relation_map() keyed by the Relation value (name, source, target, lexicon, dc:type)."""
+    out = {}
     for rel, tgt in ent.relation_map().items():
-        out.append({'name': rel.name, 'source': rel.source_id, 'target': rel.target_id,
-                    'lexicon': rel._lexicon, 'subtype': rel.subtype,
-                    'meta': {k: v for k, v in rel.metadata().items() if v not in ('', None)},
-                    'target_key': key_of(tgt)})
+        k = relkey(rel.name, rel.source_id, rel.target_id, rel._lexicon, rel.subtype)
+        if k in out:
+            k += '#dup'
+        out[k] = {'name': rel.name, 'source': rel.source_id, 'target': rel.target_id,
+                  'lexicon': rel._lexicon, 'subtype': rel.subtype,
+                  'meta': {k2: v for k2, v in rel.metadata().items() if v not in ('', None)},
+                  'target_key': key_of(tgt)}
     return out
 
 
